@@ -28,6 +28,9 @@ SRC = os.environ.get("VERIF_SRC", "/repo")
 NWORKERS = int(os.environ.get("VERIF_WORKERS", "16"))
 
 
+FROZEN_KEYS = {"kind", "tokenizer", "op", "steps", "mode", "regex", "full", "engine"}
+
+
 class HarnessError(Exception):
     pass
 
@@ -42,9 +45,12 @@ class Res:
     labels: List[str] = field(default_factory=list)
     nontrivial: bool = False
     key: Any = None  # identity of the case for distinct counting (default: the case itself)
+    vcases: Dict[str, Any] = field(default_factory=dict)  # bucket -> narrower replay case
 
-    def v(self, bucket: str, detail: Any = ""):
+    def v(self, bucket: str, detail: Any = "", case: Any = None):
         self.violations.append((bucket, detail if isinstance(detail, str) else repr(detail)))
+        if case is not None and bucket not in self.vcases:
+            self.vcases[bucket] = case
 
     def label(self, *names):
         self.labels.extend(names)
@@ -171,7 +177,9 @@ class Collector:
                     self.nt_samples.append(case)
         if len(self.samples) < 3:
             self.samples.append(case)
+        main_case = case
         for bucket, detail in res.violations:
+            case = res.vcases.get(bucket, main_case)
             kf = self.known.match(self.prop_id, bucket, case, detail)
             key = (bucket, kf["id"] if kf else None)
             cur = self.buckets.get(key)
@@ -378,6 +386,8 @@ def shrink_case(case, fails, budget_n=1500):
             for k in list(val.keys()):
                 if budget[0] <= 0:
                     break
+                if k in FROZEN_KEYS:
+                    continue
 
                 def put_k(nv, k=k, val=val):
                     c = dict(val)
